@@ -9,7 +9,7 @@ package main
 //            `verifharness rlimit k ...`), or in a directory without write permission as an
 //            unprivileged user, and classifies every file afterwards as old | new | other.
 //
-// input    = "mode=<strace|rlimit|rodir|longname>;limit=<k>;[link=1;][procs=<n>;][cmd=infer;acct=<placeholder>;]files=<name|content|name|content...>"
+// input    = "mode=<strace|rlimit|rodir|longname|retry>;limit=<k>;[link=1;][procs=<n>;][cmd=infer;acct=<placeholder>;]files=<name|content|name|content...>"
 //            longname: one of the files has a 255-byte name (its temporary file cannot be created: ENAMETOOLONG)
 //            cmd=infer: the command is `knut infer --inplace -a <placeholder> -t <first file> <last file>` instead of
 //            `knut format <files>`: with two files the first is the training file (it is only read: it must stay
@@ -252,6 +252,22 @@ func genC18(out *caseWriter, seed uint64, n int, args []string) error {
 				out.add(fmt.Sprintf("C18n-%d-%d-%d", seed, g, q), "C18.fault", c18EncodeP("longname", 0, false, procs, ln, lc))
 			}
 		}
+		for q := 0; q < 2; q++ {
+			// retry histories (see mode retry in obsC18): first versions = the files with more directives appended,
+			// limit somewhere between the size of the second and of the first version of a file
+			var first []string
+			lim := 0
+			for i := range names {
+				extra := genC18File(r, false)
+				first = append(first, vesc(names[i]), vesc(contents[i]+"\n"+extra))
+				if i == 0 || r.chance(30) {
+					lim = len(contents[i]) + 40 + r.intn(len(extra))
+				}
+			}
+			in := c18EncodeP("retry", lim, false, []int{0, 1}[q], names, contents)
+			in = strings.Replace(in, ";files=", ";first="+strings.Join(first, "|")+";files=", 1)
+			out.add(fmt.Sprintf("C18y-%d-%d-%d", seed, g, q), "C18.fault", in)
+		}
 		if rodir && g%8 == 0 {
 			out.add(fmt.Sprintf("C18r-%d-%d", seed, g), "C18.fault", c18Encode("rodir", 0, names, contents))
 		}
@@ -370,6 +386,20 @@ func obsC18(in string) string {
 		res = runCmd(20*time.Second, env, dir, append(argv, command...)...)
 	case "longname":
 		res = runCmd(20*time.Second, env, dir, append([]string{bin}, command...)...)
+	case "retry":
+		// a history on one directory: the files hold longer contents (first=), `knut format` is cut short by the
+		// file-size limit; the user then shortens the journals (files=) and formats again without a limit.  The
+		// second run must install the complete new contents of the SECOND version (whatever the first run left
+		// behind must not leak into it: seeded change C18c-fixed-temp-name-no-truncate reused a stale temp file).
+		fp := strings.Split(kv["first"], "|")
+		for i := 0; i+1 < len(fp) && i/2 < len(paths); i += 2 {
+			os.WriteFile(paths[i/2], []byte(vunesc(fp[i+1])), 0o644)
+		}
+		runCmd(20*time.Second, env, dir, append([]string{self, "rlimit", kv["limit"], bin}, command...)...)
+		for i, f := range files {
+			os.WriteFile(paths[i], []byte(f[1]), 0o644)
+		}
+		res = runCmd(20*time.Second, env, dir, append([]string{bin}, command...)...)
 	case "rodir":
 		// an unprivileged user, a directory it may read but not write, its own copy of the binary
 		bdir := workTemp("knutverif-c18bin-")
@@ -465,12 +495,44 @@ func c18MapStrace(stracePath, dir string, files [][2]string) map[string][]string
 	}
 	sort.Slice(targets, func(a, b int) bool { return len(targets[a]) > len(targets[b]) })
 	tempNo := map[string]map[string]int{}
+	// temporary files are recognised by name (target name + suffix, as ioutil.TempFile creates them) or, whatever
+	// their name, by being renamed onto a target somewhere in the trace (first pass): the classification must not
+	// depend on how an implementation names its temporary files
+	renamedOnto := map[string]string{}
+	if data, err := os.ReadFile(stracePath); err == nil {
+		for _, line := range strings.Split(string(data), "\n") {
+			if !strings.Contains(line, "rename") || !strings.HasSuffix(strings.TrimSpace(line), "= 0") {
+				continue
+			}
+			strs := c18Str.FindAllStringSubmatch(line, -1)
+			if len(strs) < 2 {
+				continue
+			}
+			src, dst := c18Unhex(strs[len(strs)-2][1]), c18Unhex(strs[len(strs)-1][1])
+			if filepath.Dir(src) == dir && filepath.Dir(dst) == dir {
+				for _, t := range targets {
+					if filepath.Base(dst) == t && filepath.Base(src) != t {
+						renamedOnto[filepath.Base(src)] = t
+					}
+				}
+			}
+		}
+	}
 	// classify a path: (target name, path number) or ok=false when outside the directory
 	classify := func(p string) (string, int, bool) {
 		if filepath.Dir(p) != dir {
 			return "", 0, false
 		}
 		base := filepath.Base(p)
+		if t, ok := renamedOnto[base]; ok {
+			if tempNo[t] == nil {
+				tempNo[t] = map[string]int{}
+			}
+			if _, ok := tempNo[t][base]; !ok {
+				tempNo[t][base] = len(tempNo[t]) + 1
+			}
+			return t, tempNo[t][base], true
+		}
 		for _, t := range targets {
 			if base == t {
 				return t, 0, true
@@ -493,6 +555,10 @@ func c18MapStrace(stracePath, dir string, files [][2]string) map[string][]string
 		writable bool
 	}
 	fds := map[int]handle{}
+	exists := map[string]bool{} // names in the directory, as far as the trace shows (initially: the targets)
+	for _, t := range targets {
+		exists[t] = true
+	}
 	pending := map[string]string{}
 	sc := bufio.NewScanner(f)
 	sc.Buffer(make([]byte, 1<<20), 1<<28)
@@ -536,8 +602,13 @@ func c18MapStrace(stracePath, dir string, files [][2]string) map[string][]string
 			fd, _ := strconv.Atoi(ret)
 			w := strings.Contains(args, "O_WRONLY") || strings.Contains(args, "O_RDWR")
 			fds[fd] = handle{t, no, w}
+			existed := exists[filepath.Base(p)]
+			if strings.Contains(args, "O_CREAT") {
+				exists[filepath.Base(p)] = true
+			}
 			switch {
-			case strings.Contains(args, "O_CREAT") && strings.Contains(args, "O_EXCL"):
+			case strings.Contains(args, "O_CREAT") && (strings.Contains(args, "O_EXCL") || !existed):
+				// a file that did not exist before is created, with or without O_EXCL
 				emit(t, fmt.Sprintf("C%d", no))
 			case strings.Contains(args, "O_TRUNC") && w:
 				emit(t, fmt.Sprintf("T%d", no))
@@ -601,6 +672,9 @@ func c18MapStrace(stracePath, dir string, files [][2]string) map[string][]string
 				emit(t, "O")
 			} else {
 				emit(t, fmt.Sprintf("%s%d", code, no))
+				if code == "U" {
+					exists[filepath.Base(c18Unhex(strs[0][1]))] = false
+				}
 			}
 		case "rename", "renameat", "renameat2":
 			if len(strs) < 2 {
@@ -620,6 +694,8 @@ func c18MapStrace(stracePath, dir string, files [][2]string) map[string][]string
 				}
 			case ok1 && ok2 && t1 == t2:
 				emit(t1, fmt.Sprintf("R%d>%d", n1, n2))
+				exists[filepath.Base(c18Unhex(strs[0][1]))] = false
+				exists[filepath.Base(c18Unhex(strs[1][1]))] = true
 			default: // a rename across targets or out of / into the directory: render with a foreign path 99
 				if ok2 {
 					emit(t2, fmt.Sprintf("R99>%d", n2))
